@@ -1256,10 +1256,11 @@ fn exec_conserve(case: &W2Case, ctx: &mut Ctx) {
                 // misdeclared: nothing can really be decoded, so conservation is exact, whatever the chunking
                 // (an empty body has no byte to lose: the codec stages legitimately wrap what the filters insert)
                 if got.out != w && !w.is_empty() {
-                    // open finding, narrow: the body is shorter than the declared codec's header, the decoder neither
+                    // open finding, narrow: the body is so short (at most 32 bytes; measured: 1-2 bytes for zlib, up to a
+                    // dozen for brotli) that the declared codec takes it for an incomplete stream, the decoder neither
                     // fails nor outputs anything, and what comes out is a valid stream of that encoding holding
                     // nothing but the inserted values
-                    if got.error_at.is_none() && w.len() <= 10 && ctx.is_open(SIG_SHORT_SWALLOWED) {
+                    if got.error_at.is_none() && w.len() <= 32 && ctx.is_open(SIG_SHORT_SWALLOWED) {
                         let codec = match ce.as_deref() {
                             Some("gzip") => "gzip",
                             Some("deflate") => "deflate",
@@ -1271,6 +1272,7 @@ fn exec_conserve(case: &W2Case, ctx: &mut Ctx) {
                                 rest = remove_all(&rest, v);
                             }
                             if rest.is_empty() {
+                                ctx.stat(&format!("swallowed_body_len_{}", if w.len() <= 2 { "1-2" } else if w.len() <= 10 { "3-10" } else if w.len() <= 32 { "11-32" } else { "33+" }), 1);
                                 ctx.known(SIG_SHORT_SWALLOWED, || format!("Content-Encoding {ce:?}, body {} ({} bytes) swallowed without error", show(w), w.len()));
                                 return;
                             }
